@@ -140,7 +140,13 @@ def tree(rnd, d, D, T, depth, normalizable=False, first=None, allow=ALL_LEAVES):
     if k == "additive":
         parts = [tree(rnd, d, D, T, depth - 1, allow=allow) for _ in range(rnd.randint(2, 3))]
         cls = rnd.choice([D.BayesRule, D.AdditiveDistribution])
-        obj = cls([p.obj for p in parts])
+        if rnd.random() < 0.4:
+            # a posterior that is extended after construction
+            obj = cls([parts[0].obj])
+            for p_ in parts[1:]:
+                obj.add_distribution(p_.obj)
+        else:
+            obj = cls([p.obj for p in parts])
         term = parts[-1].term
         for p in reversed(parts[:-1]):
             term = f"(DAdd {p.term} {term})"
